@@ -291,7 +291,10 @@ def mpt_rules(repo, res, rule="MPT"):
     if fn is not None:
         cs = list(P.find_calls(fn.body, methods={"check_subwords"}))
         pm = A.parent_map(fn.body)
-        ok = len(cs) == 1 and pm[id(cs[0])][0]["k"] == "Try" and not A.guards_of(cs[0], pm)
+        # its error leaves the function: `check_subwords(..)?`, or the call is the function's own value
+        tail = fn.body["stmts"][-1] if fn.body.get("stmts") else None
+        is_value = len(cs) == 1 and tail is not None and tail["k"] == "ExprStmt" and not tail.get("semi") and tail["expr"] is cs[0]
+        ok = len(cs) == 1 and (pm[id(cs[0])][0]["k"] == "Try" or is_value) and not A.guards_of(cs[0], pm)
         res.check(ok, rule, f"{rule}:{fq}:check_subwords", "check_subwords(firstpos, followpos, ..)? from the start positions", fn.loc())
     # Inp::from_input: every within-word automaton is checked before it is interned
     fq = "dfa::Inp::from_input"
